@@ -15,18 +15,30 @@ class Prop(ConnProp):
                   "and this send raised the backlog from below the mark to at least the mark, with the resulting backlog as "
                   "argument; handleWrite schedules a write-complete callback iff this write emptied a non-empty backlog; nothing "
                   "else schedules or runs them; user operations never run them synchronously; over all histories the "
-                  "write-complete callbacks run + queued (+1 for a pending backlog) never exceed the accepted sends. The guards "
+                  "write-complete callbacks run + queued (+1 for a pending backlog) never exceed the accepted sends; the "
+                  "callback a notification delivers is the one that was installed when it was SCHEDULED "
+                  "(delivered_is_scheduled_callback: the functor carries a copy - `wcBindSend/wcBindDrain/hwmBind = byValue` "
+                  "is extracted from the three std::bind sites - so set{WriteComplete,HighWaterMark}Callback calls between "
+                  "scheduling and delivery, also from inside the callback itself, change nothing that is already queued), and a "
+                  "crossing is judged against the mark in force at that send (hwm_uses_current_mark). The guards "
                   "are re-extracted from TcpConnection.cc on every run and re-proved equivalent to their meaning (`<` vs `<=` "
                   "breaks the build)")
     level_note = ("'not again until the backlog has fallen below the mark' is the local statement hwm_not_again + send_schedules; "
                   "thread affinity of the callbacks is by construction of the model and observed in the harness.")
-    rule = ("histories of <= 40 operations biased towards sends with scripted acceptance patterns (full/short/EAGAIN), marks "
-            "0,1,10,100,1000,4096,65536,64Mi, callbacks set or unset; exact backlog replay oracle on hook-free histories, "
-            "necessary conditions on all; asserts-on/NDEBUG x epoll/poll")
+    rule = ("histories of <= 40 operations biased towards sends with scripted acceptance patterns (full/short/relative short/"
+            "EAGAIN), marks 0,1,10,100,1000,4096,65536,64Mi, callbacks set or unset and RE-ASSIGNED at run time (`setwc <id>`, "
+            "`sethwm <id> <mark>`, id 0 = empty, from the loop thread and from inside callbacks; the harness prints which "
+            "callback identity ran); 22% of the histories contain a crossing block (a send that crosses the mark while the "
+            "kernel takes only its head, optionally over an existing backlog, with a callback script on the high-water callback: "
+            "send / shutdown / forceClose / re-assign), 12% a re-bind block (notification scheduled, callback replaced or "
+            "cleared before delivery), 40% are free of callback scripts; oracle: exact backlog replay incl. callback identity "
+            "up to the first operation made inside a callback, on all histories: neither callback ever runs inside a user "
+            "operation (only while the loop iterates), identities installed before, argument >= a mark in force; "
+            "asserts-on/NDEBUG x epoll/poll")
     trusted_base = TRUSTED
     assumptions = ASSUME
     oracles = [conn_oracle.callback_oracle]
-    profile = {"closes": False}
+    profile = {"closes": False, "hookfree": 0.4}
 
 
 PROP = Prop()
